@@ -37,7 +37,7 @@ theorem lookup_source_matches_backend {s s' : St} {now : Nat} {p : Bytes} (hc : 
     (h : lookupPath s now p = (s', .ok node)) : node.path = p ∧ MatchesLstat s.fs p node.attrs :=
   (lookupPath_sound hc).1 node h
 
-theorem lookup_error_means_absent {s s' : St} {now : Nat} {p : Bytes} (hc : AcCoherent s) (st : Nat)
+theorem lookup_error_means_absent {s s' : St} {now : Nat} {p : Bytes} (hc : AcCoherent s) (st : Fs.Errno)
     (h : lookupPath s now p = (s', .error st)) : p = [] ∨ ∃ err, Fs.lstat s.fs (fsPath p) = .error err :=
   (lookupPath_sound hc).2 st h
 
